@@ -40,16 +40,18 @@ def perm_for(k, i):
     return (k * 8 + i) * 37 % 256      # 37 is odd: a permutation of 0..255
 
 
-def gen_pair(rng, k, mode):
+def gen_pair(rng, k, mode, perms=None):
     """mode 'strict': the second database differs in every attribute the bearer may not read except those of
-    the D11a class; mode 'd11a': it differs only in attributes of the D11a class (not READABLE, link ok)."""
+    the D11a class; mode 'd11a': it differs only in attributes of the D11a class (not READABLE, link ok).
+    perms: explicit permission bytes of the characteristics (the permission matrix cases: 32 per database,
+    lighter op list), default 8 from the enumeration."""
     sec = [(False, False), (True, False), (True, True)][k % 3]
     mtu = rng.choice([23, 23, 24, 30, 64, 185, 517])
     bearer = {'mtu': mtu, 'enc': sec[0], 'auth': sec[1], 'enh': (k // 3) % 2 == 1}
     chars1, chars2 = [], []
     long_len = mtu + rng.range(0, 5)          # long enough for Read Blob
-    for i in range(8):
-        perm = perm_for(k, i)
+    for i in range(8 if perms is None else len(perms)):
+        perm = perm_for(k, i) if perms is None else perms[i]
         uuid = '%04X' % (0x3000 + (i % 3 if rng.chance(1, 2) else i))     # some characteristics share a type
         n = rng.choice([0, 1, 5, 5, 5, 20, long_len, long_len])
         v1 = bytes((0x10 + i + j) & 0xFF for j in range(n))
@@ -88,17 +90,29 @@ def gen_pair(rng, k, mode):
         svc_uuid2 = 'BB00'          # the service UUID is the value of the service declaration
     db1 = {'services': [{'uuid': svc_uuid1, 'primary': True, 'chars': chars1}], 'decl_perm': decl}
     db2 = {'services': [{'uuid': svc_uuid2, 'primary': True, 'chars': chars2}], 'decl_perm': decl}
-    return {'mode': mode, 'bearer': bearer, 'db1': db1, 'db2': db2}
+    return {'mode': mode, 'bearer': bearer, 'db1': db1, 'db2': db2, 'light': perms is not None}
 
 
-def reading_ops(mdb1, mdb2, mtu, rng):
-    """every reading operation through every attribute; guesses use the values of both databases"""
+def reading_ops(mdb1, mdb2, mtu, rng, light=False):
+    """every reading operation through every attribute; guesses use the values of both databases.
+    light: one form per operation, value attributes only (permission matrix cases)"""
     ops = []
     le16 = ac.le16
     plain = next((a[0] for a in mdb1 if a[2] == 1 and a[5] == 0 and bytes(a[1]) == b'\x03\x28'), mdb1[0][0])
     for a1, a2 in zip(mdb1, mdb2):
         h, t = a1[0], bytes(a1[1])
         v1, v2 = bytes(a1[3]), bytes(a2[3])
+        if light:
+            if t in (b'\x00\x28', b'\x03\x28'):
+                continue
+            ops.append(['rx', (b'\x0a' + le16(h)).hex()])
+            ops.append(['rx', (b'\x0c' + le16(h) + le16(0)).hex()])
+            ops.append(['rx', (b'\x08' + le16(h) + le16(h) + t).hex()])
+            ops.append(['rx', (b'\x0e' + le16(plain) + le16(h)).hex()])
+            ops.append(['rx', (b'\x20' + le16(h)).hex()])
+            if len(t) == 2:
+                ops.append(['rx', (b'\x06' + le16(h) + le16(h) + t + v1).hex()])
+            continue
         ops.append(['rx', (b'\x0a' + le16(h)).hex()])
         for off in sorted({0, 1, max(0, len(v1) - 1)}):
             ops.append(['rx', (b'\x0c' + le16(h) + le16(off)).hex()])
@@ -236,7 +250,7 @@ def build_case(case, rng):
     if 'ops' in case:
         ops, n_read = case['ops'], case['n_read']
     else:
-        rd = reading_ops(probe1['db'], probe2['db'], case['bearer']['mtu'], rng)
+        rd = reading_ops(probe1['db'], probe2['db'], case['bearer']['mtu'], rng, case.get('light', False))
         wr = writing_ops(probe1['db'], rng)
         ops, n_read = rd + wr, len(rd)
     s1 = {'db': case['db1'], 'bearer': case['bearer'], 'max_mtu': 517, 'ops': ops}
@@ -293,7 +307,7 @@ def check_cases(ctx, cases):
 
 def _case_replay(case, s1, n_read):
     return {'mode': case['mode'], 'bearer': case['bearer'], 'db1': case['db1'], 'db2': case['db2'],
-            'ops': s1['ops'], 'n_read': n_read}
+            'ops': s1['ops'], 'n_read': n_read, 'light': case.get('light', False)}
 
 
 def run(ctx):
@@ -314,10 +328,15 @@ def run(ctx):
     rng = ctx.rng
     cases = load_corpus()
     base = rng.below(32)
-    for k in range(ctx.n(12, 192)):
+    for k in range(ctx.n(9, 192)):
         cases.append(gen_pair(rng, base + k, 'strict'))
-    for k in range(ctx.n(3, 32)):
+    for k in range(ctx.n(2, 32)):
         cases.append(gen_pair(rng, base + 5 * k, 'd11a'))
+    # permission matrix: all 256 permission bytes on every run (32 characteristics per database), each with one
+    # link security level that rotates with the seed (thorough: all three)
+    for rep in range(ctx.n(1, 3)):
+        for j in range(8):
+            cases.append(gen_pair(rng, base + j + rep, 'strict', perms=[(j * 32 + i) for i in range(32)]))
     for i in range(0, len(cases), 60):
         check_cases(ctx, cases[i:i + 60])
     seen = ctx.extra.pop('perms_seen', set())
